@@ -1166,6 +1166,36 @@ Proof.
   - intros (sh' & Hsh' & H1 & H2). rewrite Hsh in Hsh'. injection Hsh' as <-. auto.
 Qed.
 
+(* the bounds handed to exclusion sequences are the extremes of the clipped
+   progression *)
+Lemma bounds_extremes f cs ce sh :
+  wf_form f -> (f_fmt f = 1 -> f_reps f = Some 1) ->
+  shape_of f cs ce = Some sh -> sane sh cs ce ->
+  let lo := fst (bounds sh cs ce) in
+  let hi := snd (bounds sh cs ce) in
+  (forall p, denote0 f cs ce p -> lo <= p /\ forall e, hi = Some e -> p <= e) /\
+  ((forall e, hi = Some e -> lo <= e) ->
+   denote0 f cs ce lo /\ forall e, hi = Some e -> denote0 f cs ce e).
+Proof.
+  intros W H1 Hsh Hsane lo hi.
+  destruct (init_core_sane f cs ce sh W H1 Hsh Hsane) as [c [_ Hok]].
+  pose proof Hok as (Hm & Hb & Hreg & _).
+  assert (Hlo : c_start c = lo) by (subst lo; rewrite <- Hb; reflexivity).
+  assert (Hhi : c_stop c = hi) by (subst hi; rewrite <- Hb; reflexivity).
+  split.
+  - intros p Hp. apply (denote0_core f cs ce sh c p Hsh Hok) in Hp.
+    destruct Hp as (H2 & H3 & _). rewrite <- Hlo, <- Hhi. auto.
+  - intros Hne. rewrite <- Hlo, <- Hhi in *. split.
+    + apply (denote0_core f cs ce sh c _ Hsh Hok). unfold core_member.
+      split; [lia|split; [exact Hne|]].
+      destruct Hreg as [[k (Hk & _ & _)]|[Ho _]]; [rewrite Hk; exists 0; lia|rewrite Ho; reflexivity].
+    + intros e He. apply (denote0_core f cs ce sh c _ Hsh Hok). unfold core_member.
+      split; [apply Hne; exact He|split; [intros e' He'; rewrite He in He'; injection He' as <-; lia|]].
+      destruct Hreg as [[k (Hk & Hpos & Hg)]|[Ho Hst]].
+      * rewrite Hk. apply grid_iff; [lia|]. apply Hg. exact He.
+      * rewrite Ho. rewrite Hst in He. injection He as <-. reflexivity.
+Qed.
+
 (* ---------- exclusions ---------- *)
 Definition item_excludes (lo : Z) (hi : option Z) (it : xitem) (p : Z) : Prop :=
   match it with XP q => p = q | XS g => denote0 g lo hi p end.
